@@ -53,7 +53,7 @@ def main():
                                  "see DESIGN.md §7) — not a claim that the property is out of reach"})
     m = {
         "version": 1,
-        "setup_cmd": "cd lean && lake build",
+        "setup_cmd": "/venv/bin/python harness/setup.py",
         "hooks": {
             "guard": "DISTANCE3D_VERIF",
             "enable": "no hooks are compiled into /repo: the harness wraps colliders in recording/counting proxies in-process",
